@@ -40,7 +40,7 @@ class C01(Prop):
             "kind": st.just("sweep"),
             "jv": docs,
             "rseed": st.integers(0, 2 ** 32 - 1),
-            "bom": st.integers(0, 4).map(lambda x: x == 0),
+            "bom": gens.chance(5),
         })
         deep = st.fixed_dictionaries({
             "kind": st.just("deep"),
